@@ -404,6 +404,24 @@ def check(recipe) -> list[Fail]:
     p = parents_ok(b, "untouched side after mutation")
     if p:
         fails.append(Fail(f"parent-or-index-wrong-after-mutation:{tag}", p))
+    if not fails and side == "source" and (route in ("pickle", "deepcopy") or route.startswith("ctor:")):
+        # the source was edited after the first copy: a second copy by the same route must show its CURRENT state
+        try:
+            cp2 = pickle.loads(pickle.dumps(src)) if route == "pickle" else _copy.deepcopy(src) if route == "deepcopy" else _cls(dst_cls)(src)
+        except Exception as e:
+            from vf.core import exc_sig
+
+            return [Fail(f"second-copy-raises:{tag}:{exc_sig(e) or type(e).__name__}", repr(e)[:300])]
+        snap2 = chem.snapshot(src)
+        fields = expected_image(snap2, src_cls, route, dst_cls)
+        exp = {k: snap2[k] for k in fields if k in snap2}
+        if "cls" in fields and src_cls != "Conformer":
+            exp["cls"] = snap2["cls"]
+        d = chem.snap_diff(exp, chem.snapshot(cp2))
+        if d:
+            head = d.split(":")[0]
+            field = head.split("[")[0] + ("." + head.split(".")[-1] if "." in head and head.split("[")[0] in ("atoms", "bonds") else "")
+            fails.append(Fail(f"second-copy-after-editing-the-source-is-stale:{tag}:{field}", d))
     # de-duplicate by signature
     seen, out = set(), []
     for f in fails:
